@@ -1,7 +1,7 @@
 """C09 — data of arguments not declared safe never reaches a safe-to-log channel (sink typing)."""
 from ..facts import ty_adt, tystr, walk_ty, place_local, place_proj, op_place, strip_refs
 from ..cfg import CFG, Tracer, thaw
-from .. import dt, instance, safety
+from .. import tguard, dt, instance, safety
 from . import c06, c17
 
 BT = "conjure_object::bearer_token::BearerToken"
@@ -75,6 +75,41 @@ def run(ctx):
     c = F.crate("conjure_http")
     ctx.units["conjure_http bodies"] = len(c.bodies)
     n = 0
+    callers_of = {}
+    for x in c.bodies:
+        for _, t_ in x.calls():
+            cid = t_["call"].get("id") if t_["call"].get("local") else None
+            if cid:
+                callers_of.setdefault(cid, []).append((x, t_))
+
+    def origins(b, op, depth=0):
+        """[(body, operand)] where the value given to a sink really comes from: a value rooted in a parameter of a private
+        helper is followed to the argument of every local caller (error constructors shared by several call sites)"""
+        p_ = op_place(op)
+        if p_ is None or depth > 3:
+            return [(b, op)]
+        roots = Tracer(b).root_locals(op)
+        if len(roots) == 1 and b.kind in ("fn", "assoc_fn") and b.d.get("vis") != "pub" and callers_of.get(b.id):
+            k = next(iter(roots))
+            # the value must reach the sink unchanged (moves / references only)
+            if 1 <= k <= b.argc and not dt.transforming_calls(b, op)[1]:
+                out_ = []
+                for x, t_ in callers_of[b.id]:
+                    if len(t_["args"]) >= k:
+                        out_ += origins(x, t_["args"][k - 1], depth + 1)
+                if out_:
+                    return out_
+        return [(b, op)]
+
+    def op_type(b, op):
+        cst = op.get("c")
+        if cst is not None:
+            return cst.get("ty")
+        p_ = op_place(op)
+        ty = dt.place_ty(b, F, p_) if p_ is not None else None
+        # look through a plain move chain to the defining local's type (a generic helper's parameter has type `E`)
+        return ty
+
     for b in c.bodies:
         for bb, t, f, as_value in sinks_in(b):
             n += 1
@@ -88,57 +123,62 @@ def run(ctx):
                 kc = dt.resolve_const(b, t["args"][1]) if not as_value else None
                 k = kc.get("str") if kc else None
                 vty = f["substs"][0] if f.get("substs") else None
-                if k == "actual":
-                    tr = Tracer(b, through_calls=True)
-                    ok = tystr(vty) in ("usize", "i32", "u32", "u64", "i64")
-                    for s in tr.sources(t["args"][2]):
-                        base = s
-                        while base[0] == "field":
-                            base = base[1]
-                        if base[0] == "const":
-                            continue
-                        if base[0] == "call" and b.blocks[base[1]]["t"]["call"]["name"] in ("count", "len"):
-                            continue
-                        if base[0] == "other":
-                            st = b.blocks[base[1]]["s"][base[2]]["r"]
-                            if "bin" in st:
-                                continue
-                        ok = False
-                    ctx.check(ok, "R9.1", where, key + "|actual", f"{b.id}: safe param `actual` must be a count (integer from Iterator::count and constants); got {tystr(vty)}",
-                              instance=f"{b.id}: with_safe_param(\"actual\", <count>)")
-                elif k == "param":
-                    # value must be a captured &str (the helper's log_as; identity decided by C19 R19.1)
-                    tr = Tracer(b)
-                    ok = tystr(vty) == "&str" and all(src_is_upvar(s) for s in tr.sources(t["args"][2]))
-                    ctx.check(ok, "R9.1", where, key + "|param", f"{b.id}: safe param `param` must be the helper's log name", instance=f"{b.id}: with_safe_param(\"param\", log_as)")
+                orgs = origins(b, t["args"][2]) if not as_value else [(b, None)]
+                if k == "param":
+                    # the helper's log name (identity decided by C19 R19.1): a captured &str or a &str parameter of the
+                    # extraction helper, possibly handed through a private tagging helper
+                    ok = not as_value
+                    for ob, oop in orgs:
+                        srcs = list(Tracer(ob).sources(oop))
+                        is_str = "str" in tystr(op_type(ob, oop) or {})
+                        from_param = all(src_is_upvar(s_) or (s_[0] == "arg" and 1 <= s_[1] <= ob.argc) for s_ in srcs) and bool(srcs)
+                        ok = ok and is_str and from_param
+                    ctx.check(ok, "R9.1", where, key + "|param", f"{b.id}: safe param `param` must be the helper's log name (a &str parameter / captured variable, not request data)", instance=f"{b.id}: with_safe_param(\"param\", log_as)")
                 else:
-                    # any other safe parameter must carry a compile-time constant or a count
-                    vc = dt.resolve_const(b, t["args"][2]) if not as_value else None
-                    tr = Tracer(b, through_calls=True)
-                    countish = tystr(vty) in ("usize", "i32", "u32", "u64", "i64") and all(
-                        base_kind(b, s) for s in tr.sources(t["args"][2]))
-                    ctx.check(vc is not None or countish, "R9.1", where, key + f"|{k}", f"{b.id}: with_safe_param({k!r}, <{tystr(vty)}>) attaches a value that is neither a constant nor a count to a safe-to-log parameter (request data would be logged as safe)",
+                    # `actual` and any other safe parameter must carry a compile-time constant or a count
+                    ok = not as_value
+                    shown = []
+                    for ob, oop in orgs:
+                        vc = dt.resolve_const(ob, oop)
+                        oty = tystr(op_type(ob, oop) or {})
+                        shown.append(oty)
+                        countish = oty in ("usize", "i32", "u32", "u64", "i64") and all(base_kind(ob, s_) for s_ in Tracer(ob, through_calls=True).sources(oop))
+                        ok = ok and (vc is not None or countish)
+                    ctx.check(ok, "R9.1", where, key + f"|{k}", f"{b.id}: with_safe_param({k!r}, <{'/'.join(sorted(set(shown))) or tystr(vty)}>) attaches a value that is neither a constant nor a count to a safe-to-log parameter (request data would be logged as safe)",
                               instance=f"{b.id}: with_safe_param({k!r}, constant/count)")
                 continue
-            # *_safe constructors: cause type = first type argument
-            cause = f["substs"][0] if f.get("substs") else None
-            cs = tystr(cause)
-            if cs == "&str":
-                if as_value:
+            # *_safe constructors: the cause (first argument), judged where it really comes from
+            if as_value:
+                cause = f["substs"][0] if f.get("substs") else None
+                cs = tystr(cause)
+                if cs == "&str":
                     ctx.violation("R9.1", where, key, f"{b.id}: {name} used as a function value over &str causes: the message cannot be shown constant")
+                elif cause is not None and "adt" in cause and data_free(F, cause):
+                    ctx.ok("R9.1", where, f"{b.id}: {name}::<{cs}> as a function value — data-free cause type")
+                elif cs == "std::io::error::Error" and b.name == "write_body" and (b.trait or "").endswith("WriteBody"):
+                    ctx.ok("R9.1", where, f"{b.id}: {name}::<io::Error> allow-listed (error of writing the body to the transport, no argument data)", nontrivial=False)
+                else:
+                    ctx.violation("R9.1", where, key + f"|{cs}", f"{b.id}: {name} is used as a function value over cause type {cs}, which can carry request data")
+                continue
+            for ob, oop in origins(b, t["args"][0]):
+                cause = op_type(ob, oop)
+                if ob is b and (cause is None or "param" in (cause or {})) and f.get("substs"):
+                    cause = f["substs"][0]
+                cs = tystr(cause or {})
+                okey = key if ob is b else f"{key}|via:{ob.path.split('::')[-1]}"
+                if cs in ("&str", "&'static str", "str"):
+                    kc = dt.resolve_const(ob, oop)
+                    ctx.check(kc is not None and "str" in kc, "R9.1", where, okey + "|const-message", f"{b.id}: {name} with a non-constant string cause (a safe cause message must be a literal; passed from {ob.path})",
+                              instance=f"{b.id}: {name}({(kc or {}).get('str')!r})")
                     continue
-                kc = dt.resolve_const(b, t["args"][0])
-                ctx.check(kc is not None and "str" in kc, "R9.1", where, key + "|const-message", f"{b.id}: {name} with a non-constant string cause (a safe cause message must be a literal)",
-                          instance=f"{b.id}: {name}({(kc or {}).get('str')!r})")
-                continue
-            if cause is not None and "adt" in cause and data_free(F, cause):
-                ctx.ok("R9.1", where, f"{b.id}: {name}::<{cs}> — data-free cause type")
-                continue
-            if cs == "std::io::error::Error" and b.name == "write_body" and (b.trait or "").endswith("WriteBody"):
-                ctx.ok("R9.1", where, f"{b.id}: {name}::<io::Error> allow-listed (error of writing the body to the transport, no argument data)", nontrivial=False)
-                continue
-            ctx.violation("R9.1", where, key + f"|{cs}", f"{b.id}: {name} is instantiated with cause type {cs}, which can carry request data (not a constant message and not a data-free type): the cause would be logged as safe")
-    ctx.floor("R9.1", "safe sinks in conjure_http", n, 31)
+                if cause is not None and "adt" in cause and data_free(F, cause):
+                    ctx.ok("R9.1", where, f"{b.id}: {name}::<{cs}> — data-free cause type" + ("" if ob is b else f" (passed from {ob.path.split('::')[-1]})"))
+                    continue
+                if cs == "std::io::error::Error" and ob.name == "write_body" and (ob.trait or "").endswith("WriteBody"):
+                    ctx.ok("R9.1", where, f"{b.id}: {name}::<io::Error> allow-listed (error of writing the body to the transport, no argument data)", nontrivial=False)
+                    continue
+                ctx.violation("R9.1", where, okey + f"|{cs}", f"{b.id}: {name} receives a cause of type {cs}" + ("" if ob is b else f" (from {ob.path})") + ", which can carry request data (not a constant message and not a data-free type): the cause would be logged as safe")
+    ctx.floor("R9.1", "safe sinks in conjure_http", n, 12)
     # Display of local data-free error types used as safe causes prints constants only
     used = set()
     for b in c.bodies:
@@ -211,8 +251,17 @@ def run(ctx):
                 for call in q["calls"]:
                     if call["name"] == "insert" and len(call["args"]) == 2 and "#safe_params" in q["text"].replace(" ", ""):
                         found += 1
-                        ok = any(cnd.replace(" ", "").startswith("ifarg.safe()") for cnd in q["conds"])
-                        ctx.check(ok, "R9.3", f"{fn['file']}:{q['line']}", f"{fn['name']}|insert-under-safe", f"macro: the SafeParams insertion template in {fn['name']} is not guarded by arg.safe() (conditions: {q['conds']})",
+                        v = tguard.positive_guard(q["conds"], "safe", allow_others=True)
+                        if v is None:
+                            # decision taken outside the template's syntactic conditions (early return / helper): the emitting
+                            # function must at least consult ArgType::safe; the generated instance is decided above (safe-set)
+                            mb = [x for x in F.crate("conjure_macros").bodies if x.kind in ("fn", "assoc_fn") and x.name == fn["name"]]
+                            consulted = any(t_["call"]["name"] == "safe" and "ArgType" in t_["call"]["def"] for x in mb for y in [x] + F.crate("conjure_macros").closures_of(x) for _, t_ in y.calls())
+                            if consulted:
+                                ctx.note(f"R9.3 {fn['name']}: insertion template's conditions {q['conds']} not in a recognised form; the function consults ArgType::safe; instance decided by the safe-set rule")
+                                continue
+                            v = False
+                        ctx.check(v, "R9.3", f"{fn['file'].split('/repo/')[-1]}:{q['line']}", f"{fn['name']}|insert-under-safe", f"macro: the SafeParams insertion template in {fn['name']} is not guarded by arg.safe() (conditions: {q['conds']})",
                                   instance=f"{fn['name']}: safe_params.insert emitted only if arg.safe()")
         ctx.floor("R9.3", "SafeParams insertion templates", found, 1)
     cm = F.crate("conjure_macros")
